@@ -54,7 +54,7 @@ func C11(c *vf.Ctx) {
 		design: &designCheck{cfg: sys.Config{Small: true, Soft: true, Threads: []string{"c1"}}, kinds: []string{"start", "hstep", "relw", "deliver", "cancel"},
 			maxRPC: 2, maxStims: 5, invs: "TypeOK StreamInvs OneWrite MetaScoped"},
 		designT: &designCheck{cfg: sys.Config{Small: true, Soft: true, Threads: []string{"c1", "c2"}}, kinds: []string{"start", "hstep", "relw", "deliver", "cancel"},
-			maxRPC: 3, maxStims: 7, invs: "TypeOK StreamInvs OneWrite MetaScoped"},
+			maxRPC: 2, maxStims: 6, invs: "TypeOK StreamInvs OneWrite MetaScoped"},
 	}
 	runSysFamily(c, fam, nT, nR)
 	MetaCodec(c)
@@ -201,8 +201,9 @@ func C10(c *vf.Ctx) {
 // ---- dispatcher failures and the four shapes through the real drpcmux ------------------------------
 
 type muxSrv struct {
-	fail  func() error
-	sendK int
+	fail    func() error
+	sendK   int
+	partial bool // the unary handler returns a (partial) response value together with its error
 }
 
 type muxDesc struct{}
@@ -243,6 +244,9 @@ func (muxDesc) Method(n int) (string, drpc.Encoding, drpc.Receiver, interface{},
 
 func (s *muxSrv) Unary(ctx context.Context, in *dir.Msg) (*dir.Msg, error) {
 	if err := s.fail(); err != nil {
+		if s.partial {
+			return &dir.Msg{Data: []byte("partial")}, err // common Go style: return resp, err
+		}
 		return nil, err
 	}
 	return &dir.Msg{Data: append([]byte("re:"), in.Data...)}, nil
@@ -370,6 +374,9 @@ func muxErrors(c *vf.Ctx) {
 			// unary
 			var out dir.Msg
 			check("unary", conn.Invoke(context.Background(), "/svc/Unary", enc, &dir.Msg{Data: []byte("q")}, &out), 0)
+			srvImpl.partial = true
+			check("unary, handler returns a response value with its error", conn.Invoke(context.Background(), "/svc/Unary", enc, &dir.Msg{Data: []byte("q")}, &out), 0)
+			srvImpl.partial = false
 			// server stream
 			recvAll := func(st drpc.Stream) (int, error) {
 				got := 0
